@@ -8,6 +8,8 @@ import Verif.Base.DrvLoop
 import Verif.Base.Parse
 import Verif.Model.SkipStream
 import Verif.Spec.Grammar
+import Verif.Spec.Cursor
+import Verif.Spec.SkipDemand
 namespace Verif
 
 def terrStr : TErr → String
@@ -40,6 +42,17 @@ def benign (s : Src) : Bool :=
    | some r => r.err.isNone || ((s.script.filter (fun r => r.k ≥ 1)).length == s.stream.length && r.k ≥ 1
                                 && s.script.all (fun r => r.k ≤ 1))
    | none => true)
+
+/-- the liveness flag of the verdict ("a valid value must not be rejected"), per facility:
+    `benign` (room-independent), or
+    * ReaderSkipDecoder: `readerLive` — the script serves the decoder's requests (Spec/SkipDemand.lean:
+      chunks of any size, an error together with the data that completes a request);
+    * the buffered reader (BufferReader.Skip, SkipDecoder): C04's `SteadyChunks` — chunks of any size,
+      an error only on the last one, stream within the first buffer.
+    Justified by Props/C02 `verdict_must_succeed`. -/
+def liveFor (impl : String) (t : UInt8) (b : Bytes) (s : List Resp) : Bool :=
+  benign ⟨b, s⟩ ||
+  (if impl == "tplreader" then readerLive t b s else SteadyChunks Facts.defaultBufSize s b.length)
 
 inductive SrcKind where
   | none
@@ -80,7 +93,7 @@ def skipVerdict (impl : String) (t : UInt8) (b : Bytes) (src : SrcKind) (res : S
   let r64 := refLen 64 t b
   let r65 := refLen 65 t b
   let live : Bool := match src with
-    | .script s => benign ⟨b, s⟩
+    | .script s => liveFor impl t b s
     | _ => true
   let toks := res.splitOn " "
   match toks with
